@@ -584,6 +584,13 @@ func init() {
 
 // receive hands one delivered byte string to every entry point.
 func receive(res *Result, prop string, i int, b []byte, st *decState, bud *decBudget) (decodedAny bool) {
+	if prop == "C08" {
+		// the three decoders and their validating twins, differentially
+		inv, val := allPairGates(res, i, b)
+		res.Probes["gate_invalid"] += inv
+		res.Probes["gate_valid"] += val
+		return inv+val > 0
+	}
 	c05 := prop == "C05"
 	c06 := prop == "C06"
 	for _, en := range decEntries {
@@ -811,6 +818,9 @@ func (decWorld) Exec(prop string, t *Trace) *Result {
 		res.Probes["max_wall_ms_in_one_call"] = int(bud.maxWallMs)
 	}
 	res.NonTrivial = nontrivial > 0
+	if prop == "C08" {
+		res.NonTrivial = res.Probes["gate_invalid"] > 0 && res.Probes["gate_valid"] > 0
+	}
 	res.Shape = hash64(shape)
 	return res
 }
